@@ -106,14 +106,15 @@ type version struct {
 }
 
 type harness struct {
-	stalls bool // this run injects client stalls
-	s      *simrt.Sim
-	ri     *hkit.RunInfo
-	prop   string
-	g      *simrt.Stream
-	db     *db19.Database
-	sm     *schemaModel
-	sch    map[string]*schema.Schema
+	stalls  bool     // this run injects client stalls
+	scratch []string // scratch tables created before the tables of the workload
+	s       *simrt.Sim
+	ri      *hkit.RunInfo
+	prop    string
+	g       *simrt.Stream
+	db      *db19.Database
+	sm      *schemaModel
+	sch     map[string]*schema.Schema
 
 	versions  []version
 	verOf     map[*db19.DbState]int
@@ -1127,8 +1128,12 @@ func Run(s *simrt.Sim, mode string, ri *hkit.RunInfo) {
 	prevSplit := btree.SetSplit(split)
 	defer btree.SetSplit(prevSplit)
 	chunk := 16384 << g.Choose(4)
-	simmaphash.Bits.Store(int32([]int{0, 0, 16, 6}[g.Choose(4)]))
+	simmaphash.Bits.Store(int32([]int{0, 0, 16, 6, 4, 3}[g.Choose(6)]))
 	defer simmaphash.Bits.Store(0)
+	simmaphash.Salt.Store(g.Uint64())
+	defer simmaphash.Salt.Store(0)
+	simmaphash.Slots.Store(int32([]int{0, 0, 1, 2, 3}[g.Choose(5)]))
+	defer simmaphash.Slots.Store(0)
 	options.Nworkers = g.Range(1, 8) // otherwise derived from GOMAXPROCS: a hidden input
 	db19.MakeSuTran = func(ut *db19.UpdateTran) *core.SuTran { return core.NewSuTran(nil, true) }
 	core.Exit = func(code int) { panic(simrt.Fatal{Msg: fmt.Sprintf("core.Exit(%d)", code)}) }
@@ -1145,7 +1150,7 @@ func Run(s *simrt.Sim, mode string, ri *hkit.RunInfo) {
 		nread = g.Range(1, 3)
 	}
 	admin := g.Coin(1, 3)
-	if mode == "C06" || mode == "C16" {
+	if mode == "C06" || mode == "C16" || mode == "C02" {
 		admin = g.Coin(2, 3)
 	}
 	var plans [][]tranPlan
@@ -1259,6 +1264,31 @@ func Run(s *simrt.Sim, mode string, ri *hkit.RunInfo) {
 	h.db = db19.CreateDb(store)
 	db := h.db
 	db19.StartConcur(db, persist)
+	if admin && g.Coin(1, 2) {
+		// scratch tables that are older than the tables of the workload (they sit above them
+		// in the schema and info tries). The first one is usually persisted before the others
+		// are created, so that those are new entries of a trie that has been saved before.
+		mk := func() {
+			name := fmt.Sprintf("x%d", g.Choose(8))
+			if res := try(func() { query.DoAdmin(db, fmt.Sprintf("create %s (a,b) key(a)", name), nil) }); res == resOK {
+				h.scratch = append(h.scratch, name)
+			}
+		}
+		mk()
+		if !g.Coin(1, 4) {
+			db.Persist()
+		}
+		for i := g.Range(1, 3); i > 0; i-- {
+			mk()
+		}
+		if g.Coin(1, 4) {
+			db.Persist()
+		}
+		// (the ones created last are dropped first)
+		for i, j := 0, len(h.scratch)-1; i < j; i, j = i+1, j-1 {
+			h.scratch[i], h.scratch[j] = h.scratch[j], h.scratch[i]
+		}
+	}
 	for _, tn := range h.sm.order {
 		query.DoAdmin(db, h.adminText(h.sm.tables[tn]), nil)
 	}
@@ -1401,13 +1431,67 @@ func (h *harness) adminClient() {
 	s := h.s
 	g := s.Tape.Stream("admin")
 	n := g.Range(1, 4)
+	churn := g.Coin(1, 2) // scratch tables come and go beside the tables of the workload
+	if churn {
+		n = g.Range(2, 9)
+	}
+	scratch := map[string]bool{}
+	var scratchOrder []string
+	for _, n := range h.scratch {
+		scratch[n] = true
+		scratchOrder = append(scratchOrder, n)
+	}
+	if len(scratchOrder) > 0 {
+		churn = true
+	}
 	added := map[string]bool{}
 	for i := 0; i < n && !s.Over(); i++ {
 		simrt.Sleep(time.Duration(g.Choose(3000)) * time.Millisecond)
 		if s.Over() {
 			return
 		}
-		switch g.Pick(3, 3, 2) {
+		w3 := 0
+		if churn {
+			w3 = 6
+		}
+		switch g.Pick(3, 3, 2, w3) {
+		case 3:
+			// the schema and info tables are persistent hash tries shared by every snapshot:
+			// entries that come and go must never disturb an older snapshot
+			var cmd, name string
+			if len(scratchOrder) == 0 || (len(scratchOrder) < 5 && g.Coin(1, 2)) {
+				for {
+					name = fmt.Sprintf("x%d", g.Choose(8))
+					if !scratch[name] {
+						break
+					}
+				}
+				cmd = fmt.Sprintf("create %s (a,b) key(a)", name)
+			} else {
+				k := 0 // mostly the oldest: it sits highest in the tries
+				if g.Coin(1, 3) {
+					k = g.Choose(len(scratchOrder))
+				}
+				name = scratchOrder[k]
+				cmd = "drop " + name
+			}
+			res := try(func() { query.DoAdmin(h.db, cmd, nil) })
+			if res == resOK {
+				if scratch[name] {
+					delete(scratch, name)
+					for k, n := range scratchOrder {
+						if n == name {
+							scratchOrder = append(scratchOrder[:k], scratchOrder[k+1:]...)
+							break
+						}
+					}
+				} else {
+					scratch[name] = true
+					scratchOrder = append(scratchOrder, name)
+				}
+			}
+			h.ri.Count("admin.scratch:"+firstWords(res), 1)
+			s.Note("admin %s -> %s", cmd, res)
 		case 0: // index creation on a (possibly populated) table while writers run
 			tn := h.sm.order[g.Choose(len(h.sm.order))]
 			t := h.sm.tables[tn]
